@@ -4,7 +4,7 @@
    propagate the failure.  Tied to /repo by the correspondence run of ./check C04 over the
    (error class x syntactic context) product. *)
 From Coq Require Import ZArith List Bool String.
-From Verif Require Import BGate PyVal Ast State Unroll ResolveProofs ErrorProofs CastGen CastProofs.
+From Verif Require Import BGate PyVal Ast State Unroll ResolveProofs ErrorProofs CastGen CastProofs ControlProofs.
 Import ListNotations.
 Open Scope Z_scope.
 
@@ -137,3 +137,47 @@ Theorem C04_errors_propagate_through_blocks {A B} (f : A -> M (list B)) l1 x l2 
   concatMM f l1 s = Ok (o, s1) -> f x s1 = Err e -> concatMM f (l1 ++ x :: l2) s = Err e.
 Proof. exact (concatMM_propagates f l1 x l2 s o s1 e). Qed.
 Print Assumptions C04_errors_propagate_through_blocks.
+
+(* ---- wrong argument, qubit or size counts; duplicate switch-case values; recursive definitions ---- *)
+Theorem C04_library_gate_qubit_count cr qubits count s bits s1 :
+  get_op_bits cr qubits (qreg_sizes s) true s = Ok (bits, s1) -> count <> O ->
+  Nat.modulo (List.length bits) count <> O -> unroll_targets cr qubits count s = Err EValidation.
+Proof. exact (gate_qubit_count_rejected cr qubits count s bits s1). Qed.
+Print Assumptions C04_library_gate_qubit_count.
+
+Theorem C04_custom_gate_parameter_count co vr cr name gd args qubits inverse s bits s1 :
+  sget name (gates s) = Some gd -> get_op_bits cr qubits (qreg_sizes s) true s = Ok (bits, s1) ->
+  List.length args <> List.length (g_params gd) ->
+  visit_custom_gate co vr cr name args qubits inverse s = Err EValidation.
+Proof. exact (custom_gate_param_count_rejected co vr cr name gd args qubits inverse s bits s1). Qed.
+Print Assumptions C04_custom_gate_parameter_count.
+
+Theorem C04_custom_gate_qubit_count co vr cr name gd args qubits inverse s bits s1 :
+  sget name (gates s) = Some gd -> get_op_bits cr qubits (qreg_sizes s) true s = Ok (bits, s1) ->
+  List.length args = List.length (g_params gd) -> List.length bits <> List.length (g_qubits gd) ->
+  visit_custom_gate co vr cr name args qubits inverse s = Err EValidation.
+Proof. exact (custom_gate_qubit_count_rejected co vr cr name gd args qubits inverse s bits s1). Qed.
+Print Assumptions C04_custom_gate_qubit_count.
+
+Theorem C04_measurement_size_mismatch co cr q t s src s1 tgt s2 :
+  smemk (qarg_name q) (qreg_sizes s) = true -> smemk (qarg_name t) (creg_sizes s) = true ->
+  get_op_bits cr [q] (qreg_sizes s) true s = Ok (src, s1) ->
+  get_op_bits cr [t] (creg_sizes s1) false s1 = Ok (tgt, s2) ->
+  List.length src <> List.length tgt ->
+  visit_measure co cr q (Some t) s = Err EValidation.
+Proof. exact (measurement_size_mismatch_rejected co cr q t s src s1 tgt s2). Qed.
+Print Assumptions C04_measurement_size_mismatch.
+
+Theorem C04_recursive_gate_definition co vr cr name gd args qubits inverse s bits s1 pvals s2 :
+  sget name (gates s) = Some gd -> get_op_bits cr qubits (qreg_sizes s) true s = Ok (bits, s1) ->
+  List.length args = List.length (g_params gd) -> List.length bits = List.length (g_qubits gd) ->
+  mapMM (fun e => eval0 cr e false None) args s1 = Ok (pvals, s2) -> smem name (gstack s2) = true ->
+  visit_custom_gate co vr cr name args qubits inverse s = Err EValidation.
+Proof. exact (recursive_gate_rejected co vr cr name gd args qubits inverse s bits s1 pvals s2). Qed.
+Print Assumptions C04_recursive_gate_definition.
+
+Theorem C04_duplicate_switch_case_value cr tv e vs seen hit s cv s1 :
+  eval0 cr e true (Some KInt) s = Ok (cv, s1) -> existsb (pyval_eqb cv) seen = true ->
+  case_scan cr tv (e :: vs) seen hit s = Err EValidation.
+Proof. exact (duplicate_case_value_rejected cr tv e vs seen hit s cv s1). Qed.
+Print Assumptions C04_duplicate_switch_case_value.
